@@ -14,7 +14,7 @@ GIdx(g) == CASE g = "g1" -> 1 [] g = "g2" -> 2
 GInit == Init /\ h = <<>>
 GNext == /\ Len(h) < MaxLen
          /\ \E d \in Devs :
-              \/ \E op \in Ops \cap {"en", "dis", "rs"} : SwitchOp(d, op) /\ Rec("op", d, op, 0, 0)
+              \/ \E op \in Ops \cap {"en", "dis", "rs", "msg"} : SwitchOp(d, op) /\ Rec("op", d, op, 0, 0)
               \/ \E op \in Ops \cap ContactEvs, c \in Contacts : ContactOp(d, op, c) /\ Rec("op", d, op, CIdx(c), 0)
               \/ \E op \in Ops \cap {"join", "leave"}, g \in Groups : GroupOp(d, op, g) /\ Rec("op", d, op, GIdx(g), 0)
               \/ \E e \in 1..MaxEntries : Deliver(d, e) /\ Rec("deliver", d, "-", e, 0)
